@@ -221,7 +221,7 @@ pub fn run(ctx: &Ctx) -> i32 {
         }
     }
     let meta = Meta {
-        rule: "every sequence of <= 3 (quick) / <= 4 (thorough) reconfigurations (modify_spec_id, builder with_spec_id, append / pop handler register, create_handle_generic adopted as the handler, modify().build(), modify().modify_tx_env().build()) over 3 specs on an Evm built without beneficiary rewards, a fee-paying transaction after every step, compared with the same sequence on a rewards-enabled twin; no two histories are merged".into(),
+        rule: "every sequence of <= 4 (quick) / <= 5 (thorough) reconfigurations (modify_spec_id, builder with_spec_id, append / pop handler register, create_handle_generic adopted as the handler, modify().build(), modify().modify_tx_env().build()) over 3 specs on an Evm built without beneficiary rewards, a fee-paying transaction after every step, compared with the same sequence on a rewards-enabled twin; no two histories are merged".into(),
         assumptions: vec!["the builder's reset_handler* methods are documented to reset to the default handler and are not in the alphabet".into(), "the Optimism handler (vaults) is explored by the `op` build of the harness".into()],
         bounds: json!({"specs": SPECS.iter().map(|s| format!("{s:?}")).collect::<Vec<_>>(), "ops": 13}),
         min_distinct: 10,
